@@ -85,7 +85,11 @@ func (i *Ignore) IsIncluded(path string, index *Index) bool {
 	}
 	for n, exFile := range i.paths {
 		// a pattern has to match whole path components up to the end of the path, not any part of it
-		exRegexp := regexp.MustCompile(fmt.Sprintf("(?:^|/)(?:%s)$", exFile))
+		exRegexp, err := regexp.Compile(fmt.Sprintf("(?:^|/)(?:%s)$", exFile))
+		if err != nil {
+			// a line that is not a valid pattern excludes nothing
+			continue
+		}
 		if n == 0 {
 			// the first pattern is goit's own directory, which only exists at the root of the working tree
 			exRegexp = regexp.MustCompile(fmt.Sprintf("^(?:\\./)?(?:%s)$", exFile))
